@@ -133,6 +133,17 @@ CHECKS = {
         note="a region delimiter reads its whole region itself, so truncation inside a Prefixed/FixedSized payload is attributed to the "
              "delimiter's member; array indices are not part of the documented path format; PrefixedArray's internal names are not claimed",
         design="§3 C18"),
+    "C09": dict(
+        technique="bounded-exhaustive enumeration of combinator x member tuples x start offsets x byte strings on the real code; isolation (differential) oracle from solo runs of the member constructs",
+        text="Select (all ordered pairs of 8 members; triples in thorough), Optional, GreedyRange, Peek, Pointer (6 absolute / end-relative / "
+             "out-of-range targets, parse and build) and Union (parsefrom None / index / name / expression, named and anonymous members) "
+             "are run with parse_stream from start offsets 0, 1 and 3 on every byte string over a 6-symbol alphabet up to length 4 (5 "
+             "thorough), which contains inputs failing at every byte inside every member. Each member is also run alone from the same "
+             "offset; the combinator's value and final stream position must be exactly what its contract derives from the solo runs "
+             "(first success / maximal chain / restored position / selected member's end), ExplicitError must propagate, and builds "
+             "must write the first buildable alternative at the position (Pointer: at the target, position restored; Peek: nothing).",
+        note="the members themselves are trusted (their own correctness is C03's business)",
+        design="§3 C09"),
 }
 
 PENDING_REASON = "check not built yet in this round (see DESIGN.md §7 build order); it will be decided by the same bounded-exhaustive engine"
